@@ -32,8 +32,14 @@ MANIFEST = dict(
           "type); C17_diagnostics: parser diagnostics, unused-variable warnings (guard: no later operand of a dot starts where "
           "the left one starts) and all lint rules incl. the naming rules are identical when declarations are as written, the "
           "non-naming rules are invariant even when declarations are re-cased (up to the case of the quoted name); "
-          "C17_resolution / C17_completion / C17_hierarchy: the look-ups of the symbol table, the scoping model, the completion "
-          "listing, the class forest and the class index do not depend on the letter case of the queried name. Tie: generated "
+          "C17_symbol_table / C17_resolution / C17_resolution_uses / C17_class_index / C17_completion / C17_completion_dotted / "
+          "C17_operand_spelling / C17_hierarchy: the look-ups of the symbol table, the scoping model (identifier, enclosing "
+          "class, qualifying class, `uses` entities, every name of a dotted operand -- the exact-spelling comparison "
+          "for_class_or_module is proved harmless), the completion listing, the class index and the class forest (class and "
+          "parent names re-cased) do not depend on letter case. PARTIAL at this layer: invariance is proved for the spelling of "
+          "the QUERY inside one abstract workspace and for the forest under re-cased names; that the scoping model's answers "
+          "are also unchanged when the type references stored inside the workspace are re-cased (eval types carry the "
+          "spelling as written) is covered by the metamorphic run only. Tie: generated "
           "workspaces (2..6 classes + modules, inheritance, uses, members, methods with parameters / locals, bodies with "
           "assignments, calls, dotted chains, dangling dots, if / for / while / loop / repeat / switch blocks, `inherited self.X`, "
           "`Purge(x)`, tVarByteArray locals, `pass`, return) and single-file programs of the full grammar (types, records, OQL) x "
@@ -1104,7 +1110,15 @@ def replay_witnesses(ctx):
         ctx.known("%s: %s reproduces on its witness" % (f.get("id"), cls))
 
 
+def repo_clean():
+    """/repo's working tree equals its HEAD (other agents patch /repo temporarily to seed defects; the harness
+    includes /repo/src by path, so a run made in such a window is not about HEAD)"""
+    rc, _ = core.sh(["git", "-C", core.REPO, "diff", "--quiet"], timeout=60)
+    return rc == 0
+
+
 def correspondence(ctx, broken_obligations=()):
+    clean0 = repo_clean()
     replay_witnesses(ctx)
     cases, hist = gen_cases(ctx)
     meta = {
@@ -1132,9 +1146,11 @@ def correspondence(ctx, broken_obligations=()):
         cov = diff.differential(ctx, ENGINE, cases, oracle=oracle_counting, known=make_known(ctx), shrinker=shrinker,
                                 nontrivial=nontrivial, describe=describe, split=split)
     except core.Violation as v:
+        meta["repo_worktree_equals_head"] = {"at_start": clean0, "at_end": repo_clean()}
         v.coverage = dict(getattr(v, "coverage", {}) or {}, **meta)
         raise
     cov.update(meta)
+    cov["repo_worktree_equals_head"] = {"at_start": clean0, "at_end": repo_clean()}
     cov["naming_diagnostics_changed_pairs"] = sum(1 for o in seen.values() if naming_changed(o))
     cov["samples"] = [describe(cases[len(probes())])["files"], describe(cases[-1])["files"]]
     cov["refuted_or_partial"] = [
